@@ -163,7 +163,7 @@ Section Inv.
         * exact HlenB.
         * rewrite Hre'. rewrite HRsplit, app_length.
           assert (N.to_nat n' <= Hn)%nat by (unfold Hn; lia). lia.
-        * rewrite Hbel'. rewrite Els. reflexivity.
+        * exact Hbel'.
         * exact Hc'.
     - pose proof (draw_to_term_top_eq (texts ++ bars) (tt_n tg) (tt_below tg) W H) as Heq.
       rewrite Ed in Heq. injection Heq as Hops _ _. rewrite Hops.
